@@ -437,6 +437,30 @@ theorem c10_bulk_is_sequential_history (envOf : Nat → Env) (now : Nat) (cs : L
   · intro env st c hrej hnr ops
     exact c10_membrane_replay_memory env st c hrej hnr _
 
+/-- **A re-entrant hook is a history.**  When the user's `on_threat` hook, while it runs, un-installs itself, calls back
+    into the membrane (any operations: further `filter` calls, `learn_threat`, `set_threshold`, …) and re-installs itself,
+    the state in which the outer `filter` returns is the state after the HISTORY "`m.on_threat = None`; the hook's
+    operations; `m.on_threat = hook`" run on the booked state of the outer call — so the theorems over histories
+    (replay memory, audit completeness, rate window, active signatures) speak about everything a re-entrant hook does.
+    In particular the input the hook was told about is refused when the hook itself sends it again
+    (`c10_membrane_replay_memory`: it was booked before the hook ran). -/
+theorem c10_reentrant_hook_is_history (env : Env) (m : Membrane) (now : Nat) (h : Option Hook) (ops : List MOp) :
+    (m.reenter env now h ops).1 = (mrun env ⟨m, now⟩ ([.setHook none] ++ ops ++ [.setHook h])).1 ∧
+    (m.reenter env now h ops).2 = (mrun env ⟨m, now⟩ ([.setHook none] ++ ops ++ [.setHook h])).2 := by
+  have happ : ∀ (xs ys : List MOp) (st : MSt),
+      mrun env st (xs ++ ys) = ((mrun env (mrun env st xs).1 ys).1, (mrun env st xs).2 ++ (mrun env (mrun env st xs).1 ys).2) := by
+    intro xs
+    induction xs with
+    | nil => intro ys st; simp [mrun]
+    | cons x xs ih =>
+      intro ys st
+      simp only [List.cons_append, mrun]
+      rw [ih]
+      simp [List.append_assoc]
+  unfold Membrane.reenter
+  rw [List.append_assoc, happ [.setHook none], happ ops]
+  simp [mrun, mstep]
+
 /-- **Rate window under floods.**  Take any sequential history on a fresh membrane with rate limit `r` (no
     re-assignment of the limit), then let any number of threads call `filter` concurrently — their
     `_check_rate_limit` executions interleaved statement by statement in any way, the clock advancing at any point.
